@@ -201,6 +201,7 @@ type vTarget struct {
 	valid bool
 	node  string // DAG node the reference must attach to ("" = the workflow input)
 	cycle bool
+	only  string // the target is used only for fields of this stage of step b
 }
 
 // reference targets for a field of step b: existing and dangling ones, of every path length.
@@ -221,6 +222,10 @@ func verifTargets() []vTarget {
 		{path: []any{"other"}, valid: false},
 		{path: []any{}, valid: false}, // the bare root "$"
 		{path: []any{"steps", "b", "outputs", "success", "v"}, valid: false, cycle: true},
+		// a stage of b that waits for itself: a one-node cycle (never reaches the graph's cycle search,
+		// the graph refuses the edge)
+		{path: []any{"steps", "b", "starting"}, valid: false, cycle: true, only: "starting"},
+		{path: []any{"steps", "b", "starting", "started"}, valid: false, cycle: true, only: "starting"},
 	}
 }
 
@@ -250,6 +255,9 @@ func VerifH_C10_reference_edges() {
 	var slot any = ref
 	stage := map[string]string{"input": "starting", "wait_for": "starting", "enabled": "enabling", "stop_if": "cancelled", "deploy": "deploy"}[field]
 	consumer := "steps.b." + stage
+	if tg.only != "" && tg.only != stage {
+		return
+	}
 	var want []string
 	group := consumer + "." + field + ".x"
 	switch tag {
